@@ -40,6 +40,9 @@ func VerifT3Replay() {
 	case "tokens":
 		verifT3Tokens()
 		return
+	case "slice":
+		verifT3Slice()
+		return
 	case "structopts":
 		verifT3StructOptions()
 		return
@@ -407,6 +410,42 @@ func verifT3StructOptions() {
 				err := api.UnmarshalFromString(d.text, &s1)
 				wantErr := du && (d.hasUnknown || (cs && d.wrongCase))
 				v.Assert((err != nil) == wantErr, fmt.Sprintf("DisallowUnknownFields=%v CaseSensitive=%v: decoding %s into struct{A int8; B bool} gives err=%v, documented behaviour: error=%v", du, cs, d.text, err, wantErr))
+			}
+		}
+	}
+}
+
+// verifT3Slice: documents decoded into a nil []int and into a slice that already has storage
+// (cap 1, stale data) by sonic and by encoding/json: same error-or-not, same resulting slice.
+func verifT3Slice() {
+	n := int(v.Uint64("len"))
+	b := make([]byte, 0, 16)
+	for i := 0; i < 12; i++ {
+		c := byte(v.Uint64(fmt.Sprintf("in[%d]", i)))
+		if i < n {
+			b = append(b, c)
+		}
+	}
+	for _, text := range []string{string(b), "[]", "[1]", "[1,2]", "[1,2,3]", "[1,2,3,4,5]", "null", "[null]", "[null,2]", "[1,]", "[,]"} {
+		for _, reuse := range []bool{false, true} {
+			var a1, a2 []int
+			if reuse {
+				a1, a2 = make([]int, 1, 1), make([]int, 1, 1)
+				a1[0], a2[0] = 7, 7
+			}
+			var e1 error
+			func() {
+				defer func() {
+					if r := recover(); r != nil {
+						v.Assert(false, fmt.Sprintf("decoding %q into []int panicked: %v", text, r))
+					}
+				}()
+				e1 = ConfigStd.UnmarshalFromString(text, &a1)
+			}()
+			e2 := json.Unmarshal([]byte(text), &a2)
+			v.Assert((e1 == nil) == (e2 == nil), fmt.Sprintf("sonic and encoding/json disagree on accepting %q into []int: sonic err=%v, encoding/json err=%v", text, e1, e2))
+			if e1 == nil && e2 == nil {
+				v.Assert(reflect.DeepEqual(a1, a2), fmt.Sprintf("decoding %q into []int (reused storage: %v): sonic gives %v, encoding/json %v", text, reuse, a1, a2))
 			}
 		}
 	}
